@@ -271,6 +271,9 @@ def check_case(args):
             built = _G['builds'].get((ci, prof))
             if c.expect_compile_error:
                 continue
+            if built is not None and getattr(built, 'timed_out', False):
+                res['unexplored'].append(f'{prof}: build timed out')
+                continue
             if built is None or not built.ok:
                 res['violations'].append({'what': 'valid program does not compile', 'variant': prof, 'log': (built.log[-600:] if built else '')})
                 continue
